@@ -132,7 +132,12 @@ def check(F, R, Gm, tier="quick"):
         R.ob("WELL-FORMED-SRC", key, got == sorted(want), where, "`%s`: the missing-bounds error names %s, the variables without two finite ends are %s" % (text.replace("\n", " / ")[:140], got, sorted(want)))
     # ---- contents
     cont_cases = [
-        ("every used variable present", P("min b + 0 * a", ["c - c + d >= 1", "e <= 3"], ["a, b, c, d, e, unused as Real(0, 9)"]), ["b", "d", "e"]),
+        ("every used variable present", P("min b + 0 * a", ["c - c + d >= 1", "e <= 3"], ["a, b, c, d, e, unused as Real(0, 9)"]), ["a", "b", "c", "d", "e"]),
+        ("variable only under a zero factor", P("min x + 0 * y", ["x >= 1", "0 * (z + 1) + x <= 8"], ["x, y, z as Real(0, 9)"]), ["x", "y", "z"]),
+        ("variable only under an implicit zero factor", P("min x + 0y", ["x >= 1"], ["x, y as Real(0, 9)"]), ["x", "y"]),
+        ("variable under a zero entry of a cost table", P("min sum(i in 0..len(c)) { c[i] * x_i }", ["x_0 + x_2 >= 1"], ["x_i as Real(0, 9) for i in 0..3"], where=["let c = [3, 0, 2]"]), ["x_0", "x_1", "x_2"]),
+        ("variable times zero on the right", P("min x + y * 0", ["x >= 1", "x - z * 0 <= 8"], ["x, y, z as Real(0, 9)"]), ["x", "y", "z"]),
+        ("variable that cancels", P("min x", ["x + y - y >= 1", "z / 2 - 0.5 * z + x <= 8"], ["x, y, z as Real(0, 9)"]), ["x", "y", "z"]),
         ("names sort bytewise", P("min B + a + Z_1 + z", ["B + a + Z_1 + z >= 1", "x_10 + x_2 + x_1 >= 1"], ["B, a, Z_1, z, x_10, x_2, x_1 as Real(0, 9)"]), ["B", "Z_1", "a", "x_1", "x_10", "x_2", "z"]),
     ]
     for label, text, must in cont_cases:
